@@ -99,10 +99,15 @@ func parseContractFile(path, pkgPath string) ([]*Contract, error) {
 	var last *Clause
 	for i, line := range strings.Split(string(data), "\n") {
 		t := strings.TrimSpace(line)
-		if !strings.HasPrefix(t, "//@") {
+		// "//@ ..." ; gofmt rewrites it to "// @ ..." inside doc comments: both are accepted
+		if !strings.HasPrefix(t, "//") {
 			continue
 		}
-		t = strings.TrimSpace(t[3:])
+		t = strings.TrimSpace(t[2:])
+		if !strings.HasPrefix(t, "@") {
+			continue
+		}
+		t = strings.TrimSpace(t[1:])
 		if t == "" {
 			continue
 		}
